@@ -36,6 +36,8 @@ pub struct RunLog {
     pub online: Vec<(usize, String)>,
     pub trace: Vec<String>,
     pub store_calls: Vec<String>,
+    /// Wall-clock bound fired: no verdict for this script.
+    pub undecided: Option<String>,
 }
 
 pub async fn reset_orderer_tables(store: &SqliteStore) {
@@ -59,7 +61,7 @@ pub async fn run_script(store: &SqliteStore, dag: &Dag, ops: &Ops, script: &[Ste
     insert_ops(store, ops).await;
     let probe = Probe::new(store.clone());
     let orderer: Orderer<Op, _, Probe> = Orderer::new(probe.clone());
-    let mut log = RunLog { released: vec![], deliveries: vec![], errors: vec![], online: vec![], trace: vec![], store_calls: vec![] };
+    let mut log = RunLog { released: vec![], deliveries: vec![], errors: vec![], online: vec![], trace: vec![], store_calls: vec![], undecided: None };
     let mut released_set: BTreeSet<usize> = BTreeSet::new();
     let mut steps: Vec<Step> = script.to_vec();
     steps.push(Step::Drain(usize::MAX));
@@ -76,7 +78,14 @@ pub async fn run_script(store: &SqliteStore, dag: &Dag, ops: &Ops, script: &[Ste
             Step::Drain(k) => {
                 let cap = (*k).min(4 * steps.len() + 16);
                 for _ in 0..cap {
-                    match DriveNext::new(orderer.next(), &probe, 0).await {
+                    let driven = match tokio::time::timeout(Duration::from_secs(30), DriveNext::new(orderer.next(), &probe, 0)).await {
+                        Ok(r) => r,
+                        Err(_) => {
+                            log.undecided = Some("next() neither completed nor reached a decidable state within 30 s".into());
+                            break;
+                        }
+                    };
+                    match driven {
                         NextOutcome::Done(Ok(op), _) => {
                             let Some(x) = ops.index_of(&op.0.hash) else {
                                 log.errors.push("next() returned an operation that was never delivered".into());
@@ -99,6 +108,10 @@ pub async fn run_script(store: &SqliteStore, dag: &Dag, ops: &Ops, script: &[Ste
                             break;
                         }
                         NextOutcome::Empty(_) => break,
+                        // Parked on the orderer's own state without having asked the store: nothing
+                        // more will come out of this call (what stays queued shows up as
+                        // "never released" in the fixpoint comparison).
+                        NextOutcome::Parked(_) => break,
                         NextOutcome::Cancelled(_) => unreachable!(),
                     }
                 }
@@ -299,6 +312,10 @@ pub fn run(args: &Args) {
                         "script": script.iter().map(|s| format!("{s:?}")).collect::<Vec<_>>(),
                         "released": log.released, "trace": log.trace.iter().take(200).collect::<Vec<_>>(), "store_calls": log.store_calls, "detail": detail})
                 };
+                if let Some(why) = &log.undecided {
+                    rep.inconclusive(format!("case {i} script {si}: {why}"));
+                    continue;
+                }
                 let j = judge(&dag, script, &log);
                 for (sig, what, detail) in j.sigs {
                     rep.violation(&sig, what, witness(detail, &log));
